@@ -711,9 +711,9 @@ theorem init_inv (sc : Sched) (tape : List Side) (post : Nat) (hlim : 1 ≤ sc.l
   · refine ⟨.start, Ossl.new .client tape 0, .start, Ossl.new .server tape post, 0, 0, 0, 0, ?_⟩
     have hctr : CtrOk sc Tp.new := by simp [CtrOk, Tp.new]
     refine ⟨?_, ?_, rfl, rfl, ?_, ?_, rfl, rfl, ?_, ?_, ?_, ?_, ?_, ?_, ?_, ?_, ?_, rfl⟩
-    · simp [Sys.init, mkTask, mkStream]
+    · simp [Sys.init, Sys.initX, mkTask, mkStream]
       exact ⟨rfl, rfl, rfl, rfl, rfl⟩
-    · simp [Sys.init, mkTask, mkStream]
+    · simp [Sys.init, Sys.initX, mkTask, mkStream]
       exact ⟨rfl, rfl, rfl, rfl, rfl⟩
     · exact ⟨hlim, hdir, hctr, rfl, rfl, ⟨rfl, rfl, rfl⟩, fun _ => rfl⟩
     · exact ⟨hlim, hdir, hctr, rfl, rfl, ⟨rfl, rfl, rfl⟩, fun _ => rfl⟩
@@ -721,13 +721,13 @@ theorem init_inv (sc : Sched) (tape : List Side) (post : Nat) (hlim : 1 ≤ sc.l
       left; exact ⟨[], rfl, by simp, rfl, rfl⟩
     · exact ⟨rfl, rfl, fun _ => rfl⟩
     · exact ⟨rfl, rfl, fun _ => rfl⟩
-    · simp [Sys.init, Ossl.new]; omega
-    · simp [Sys.init, Ossl.new]; omega
-    · intro _ h; simp [Sys.init] at h
-    · intro _ h; simp [Sys.init] at h
+    · simp [Sys.init, Sys.initX, Ossl.new]; omega
+    · simp [Sys.init, Sys.initX, Ossl.new]; omega
+    · intro _ h; simp [Sys.init, Sys.initX] at h
+    · intro _ h; simp [Sys.init, Sys.initX] at h
     · intro _; exact ⟨rfl, rfl⟩
     · intro _; exact ⟨rfl, hwf, by simp [Ossl.new]⟩
-  · simp only [Sys.phi, Sys.init, mkTask, mkStream, Bool.false_eq_true, if_false, Epot, Ossl.new, Tp.new, ctr,
+  · simp only [Sys.phi, Sys.init, Sys.initX, mkTask, mkStream, Bool.false_eq_true, if_false, Epot, Ossl.new, Tp.new, ctr,
       flushDelay, rank, hsBound, b2n, Q.length, Q.empty]
     simp
     have h1 := K4 sc 2
